@@ -1,4 +1,5 @@
 CFG = dict(
+    race_pass=True,   # the free-running rounds once more in a harness built with -race (a search, never a proof)
     theorems=["C19.run_reaches", "C19.conservation", "C19.conservation_quiescent", "C19.no_duplicate",
               "C19.block_never_drops", "C19.capacity_le_max", "C19.expansion_monotone",
               "C19.single_producer_order", "C19.single_producer_order_unlocked_fails", "C19.spec_holds",
